@@ -36,12 +36,12 @@ else:
     run(f'git apply {patch}', cwd=wt)
 # regenerate the patch against the current tree (line numbers may have moved)
 rc, cur_patch = run('git diff', cwd=wt)
-open('/tmp/evalseed_cur.diff', 'w').write(cur_patch); patch_cur = '/tmp/evalseed_cur.diff'
+patch_cur = '/tmp/evalseed_cur_' + sid + '.diff'; open(patch_cur, 'w').write(cur_patch)
 def place_demo():
     placed = []
     for f in demo:
         src = open(os.path.join(seed_dir, f)).read()
-        m = re.search(r'place in:\s*(\S+)', src)
+        m = re.search(r'place in:\s*(\S+)', src) or re.search(r'^// dir:\s*(\S+)', src, re.M)
         d = m.group(1) if m else '.'
         dst = os.path.join(wt, d, 'zz_seed_' + f if f.endswith('_test.go') else 'zz_seed_' + f.replace('.go', '_test.go'))
         open(dst, 'w').write(src); placed.append((dst, d, src))
@@ -49,7 +49,8 @@ def place_demo():
 def run_demo():
     placed = place_demo(); ok = True; outs = ''
     for dst, d, src in placed:
-        tags = '-tags binary_log' if re.search(r'//go:build\s+binary_log', src) else ''
+        tags = '-tags binary_log' if (re.search(r'//go:build\s+binary_log', src) or re.search(r'^// tags:.*binary_log', src, re.M)) else ''
+        if re.search(r'^// race:\s*true', src, re.M): tags += ' -race'
         names = '|'.join(re.findall(r'^func (Test\w+)', src, re.M)) or '.'
         rc, out = run(f'go test -vet=off -count=1 {tags} -run "^({names})$" ./{d}', cwd=wt, timeout=900)
         outs += out[-1500:]; ok = ok and rc == 0
